@@ -4,11 +4,21 @@
    (img), rebuilt from the chunk messages the device reports, so "the bytes the device holds"
    is decided here and not by the harness.
 
-   Trace object: [id, mems (number of memories), img0 (initial image per memory), hasdup,
+   Trace object: [id, mems (number of memories), img0 (initial image per memory, the bytes of its
+                  segments one after the other), segs (per memory: the address segments that exist
+                  on the device, each [base, len, off = position of its first byte in img0]), hasdup,
                   ev (events)], events:
-     cs    [rid, kind, m, addr, len, data, flush]        an API call starts (rid = position)
-     ret   [rid, ret]                                    the API call returned
-     tx    [m, hint]                                     first chunk of read `hint` handed to the link
+     cs    [rid, kind, m, addr, len, data, flush, via]   a call of Memory.read/write starts (rid =
+                                                         position); via = "raw" (the application calls
+                                                         it) or "deck" (a DeckMemoryManager client
+                                                         request: query, read, write, command)
+     ret   [rid, ret]                                    the call returned
+     tx    [k "r"|"w", m, hint]                          a message was handed to the link from inside
+                                                         API call `hint` (its first chunk)
+     dnote [rid, k "ok"|"fail"|"done"]                   the deck client's own completion / failure
+                                                         callback of request rid was called (or its
+                                                         blocking call returned; "done" = a call
+                                                         that returns no result)
      up    [k "r"|"w", m, addr, len, data, st, hint]     the device served a chunk message; hint =
                                                          rid of the API call the sending thread was
                                                          inside when it sent it, else 0
@@ -17,7 +27,9 @@
      drop                                                disconnected was signalled
      end   [lock, pending, epilogue, dead, hung, images]       quiescence report
    Write requests of one trace have pairwise disjoint, distinct address ranges per memory (the
-   harness guarantees it) so a chunk or a notification identifies its request.              *)
+   harness guarantees it) so a chunk or a notification identifies its request; the one exception
+   is a repetition of a write that has already been notified (a retry): chunks and notifications
+   go to the oldest request of that range that has not been notified yet.                    *)
 EXTENDS Naturals, Sequences, FiniteSets, TLC, Json, IOUtils
 
 CONSTANTS RC, WC
@@ -25,16 +37,16 @@ P == INSTANCE MemProtoProps
 
 Traces == JsonDeserialize(IOEnv.TRACE_FILE)
 
-VARIABLES tid, l, reqs, chunks, notes, expect, firstAt, csAt, img, rdQ, lastW, lerrAt, win, bad, badAt
+VARIABLES tid, l, reqs, chunks, notes, dnotes, expect, firstAt, sentAt, csAt, img, rdQ, lastW, lerrAt, win, bad, badAt
 
 T == Traces[tid]
 Ev == T.ev[l]
-vars == <<tid, l, reqs, chunks, notes, expect, firstAt, csAt, img, rdQ, lastW, lerrAt, win, bad, badAt>>
+vars == <<tid, l, reqs, chunks, notes, dnotes, expect, firstAt, sentAt, csAt, img, rdQ, lastW, lerrAt, win, bad, badAt>>
 
 Init == /\ tid \in 1..Len(Traces)
         /\ l = 1
-        /\ reqs = <<>> /\ chunks = <<>> /\ notes = <<>> /\ expect = <<>> /\ firstAt = <<>>
-        /\ csAt = <<>>
+        /\ reqs = <<>> /\ chunks = <<>> /\ notes = <<>> /\ dnotes = <<>> /\ expect = <<>> /\ firstAt = <<>>
+        /\ sentAt = <<>> /\ csAt = <<>>
         /\ img = Traces[tid].img0
         /\ rdQ = [m \in 1..Traces[tid].mems |-> <<>>]
         /\ lastW = [m \in 1..Traces[tid].mems |-> 0]
@@ -43,18 +55,35 @@ Init == /\ tid \in 1..Len(Traces)
 
 Fail(c) == IF bad = "ok" /\ c # "ok" THEN bad' = c /\ badAt' = l ELSE UNCHANGED <<bad, badAt>>
 
-Sub(s, a, n) == [i \in 1..n |-> s[a + i]]            \* n bytes from (0-based) address a
+Sub(s, a, n) == [i \in 1..n |-> s[a + i]]            \* n bytes from (0-based) position a
 Overlay(s, a, d) == [i \in DOMAIN s |-> IF i > a /\ i <= a + Len(d) THEN d[i - a] ELSE s[i]]
+MinOf(S) == CHOOSE x \in S : \A y \in S : x <= y
+MaxOf(S) == CHOOSE x \in S : \A y \in S : y <= x
 
-\* the write request (accepted) whose range contains a chunk at (m, addr); 0 if none
+\* ---- the device's address space: a few segments (a plain memory has one, [0, size); the deck
+\* memory has the info table, the command section and one window per deck, far apart)
+Segs(m) == T.segs[m]
+SegsOf(m, a, n) == {k \in DOMAIN Segs(m) : Segs(m)[k].base <= a /\ a + n <= Segs(m)[k].base + Segs(m)[k].len}
+InSeg(m, a, n) == SegsOf(m, a, n) # {}
+\* (0-based) position in img[m] of address a (InSeg(m, a, n) for the access at hand)
+Pos(m, a, n) == LET k == MinOf(SegsOf(m, a, n)) IN Segs(m)[k].off + (a - Segs(m)[k].base)
+\* address of the (1-based) position p of img[m]
+AddrOf(m, p) == LET k == CHOOSE k \in DOMAIN Segs(m) : Segs(m)[k].off < p /\ p <= Segs(m)[k].off + Segs(m)[k].len
+                IN Segs(m)[k].base + (p - 1 - Segs(m)[k].off)
+
+\* the write request whose range contains a chunk at (m, addr): innermost start address; among
+\* repetitions of one range the oldest that is not notified yet (else the newest); 0 if none
 WriteOf(m, addr) ==
     LET c == {i \in DOMAIN reqs : /\ reqs[i].kind = "write" /\ reqs[i].m = m
                                    /\ reqs[i].addr <= addr
                                    /\ (addr < reqs[i].addr + reqs[i].len \/ addr = reqs[i].addr)}
-    IN IF c = {} THEN 0 ELSE CHOOSE i \in c : \A j \in c : reqs[j].addr <= reqs[i].addr
+        top == {i \in c : \A j \in c : reqs[j].addr <= reqs[i].addr}
+        u == {i \in top : notes[i] = <<>>}
+    IN IF c = {} THEN 0 ELSE IF u # {} THEN MinOf(u) ELSE MaxOf(top)
 WriteAt(m, addr) ==
     LET c == {i \in DOMAIN reqs : reqs[i].kind = "write" /\ reqs[i].m = m /\ reqs[i].addr = addr}
-    IN IF c = {} THEN 0 ELSE CHOOSE i \in c : TRUE
+        u == {i \in c : notes[i] = <<>>}
+    IN IF c = {} THEN 0 ELSE IF u # {} THEN MinOf(u) ELSE MaxOf(c)
 
 \* may request i have been superseded by a flush_queue write before it was started?
 MaySup(i) == /\ reqs[i].kind = "write"
@@ -69,31 +98,35 @@ MergeAppend(ch, c) == IF Len(ch) > 0 /\ ch[Len(ch)] = c THEN ch ELSE Append(ch, 
 ECs == /\ Ev.e = "cs"
        /\ csAt' = Append(csAt, l)
        /\ reqs' = Append(reqs, [kind |-> Ev.kind, m |-> Ev.m, addr |-> Ev.addr, len |-> Ev.len,
-                                data |-> Ev.data, flush |-> Ev.flush, accepted |-> (Ev.kind = "write"),
+                                data |-> Ev.data, flush |-> Ev.flush, via |-> Ev.via, accepted |-> (Ev.kind = "write"),
                                 returned |-> FALSE, retAt |-> 0])
-       /\ chunks' = Append(chunks, <<>>) /\ notes' = Append(notes, <<>>)
-       /\ expect' = Append(expect, <<>>) /\ firstAt' = Append(firstAt, 0)
+       /\ chunks' = Append(chunks, <<>>) /\ notes' = Append(notes, <<>>) /\ dnotes' = Append(dnotes, <<>>)
+       /\ expect' = Append(expect, <<>>) /\ firstAt' = Append(firstAt, 0) /\ sentAt' = Append(sentAt, 0)
        /\ win' = IF lerrAt # 0 THEN win \cup {Len(reqs) + 1} ELSE win
        /\ UNCHANGED <<img, rdQ, lastW, lerrAt, bad, badAt>>
 
 ERet == /\ Ev.e = "ret"
         /\ reqs' = [reqs EXCEPT ![Ev.rid].accepted = Ev.ret, ![Ev.rid].returned = TRUE, ![Ev.rid].retAt = l]
-        /\ UNCHANGED <<chunks, notes, expect, firstAt, csAt, img, rdQ, lastW, lerrAt, win, bad, badAt>>
+        /\ UNCHANGED <<chunks, notes, dnotes, expect, firstAt, sentAt, csAt, img, rdQ, lastW, lerrAt, win, bad, badAt>>
 
-\* the first chunk message of a read was handed to the link from inside the API call: the request
-\* is in flight from now on (even if that message never reaches the device)
+\* a message was handed to the link from inside API call `hint` (the first chunk of that request):
+\* the request is in flight from now on (even if that message never reaches the device)
 ETx == /\ Ev.e = "tx"
-       /\ rdQ' = IF \A i \in DOMAIN rdQ[Ev.m] : rdQ[Ev.m][i] # Ev.hint
+       /\ rdQ' = IF Ev.k = "r" /\ \A i \in DOMAIN rdQ[Ev.m] : rdQ[Ev.m][i] # Ev.hint
                  THEN [rdQ EXCEPT ![Ev.m] = Append(@, Ev.hint)] ELSE rdQ
-       /\ UNCHANGED <<reqs, chunks, notes, expect, firstAt, csAt, img, lastW, lerrAt, win, bad, badAt>>
+       /\ sentAt' = IF Ev.hint \in DOMAIN sentAt /\ sentAt[Ev.hint] = 0 THEN [sentAt EXCEPT ![Ev.hint] = l] ELSE sentAt
+       /\ UNCHANGED <<reqs, chunks, notes, dnotes, expect, firstAt, csAt, img, lastW, lerrAt, win, bad, badAt>>
 
-\* the link driver reported an error (the library starts tearing the session down)
-\* (calls that are in progress at this moment overlap the tear-down just like calls that start
-\* during it: both are in the window of the known finding)
+\* the link driver reported an error (the library starts tearing the session down).
+\* Calls that are in progress at this moment overlap the tear-down just like calls that start
+\* during it: both are in the window of the known finding -- a request that registers itself after
+\* the tear-down has swept the tables.  A call that has already handed its first message to the
+\* link is not in that window: a request is registered before it is sent, so the sweep, which
+\* comes after the error, finds it (this also holds for the call whose own send reported the error).
 ELerr == /\ Ev.e = "lerr"
          /\ lerrAt' = l
-         /\ win' = win \cup {i \in DOMAIN reqs : ~reqs[i].returned}
-         /\ UNCHANGED <<reqs, chunks, notes, expect, firstAt, csAt, img, rdQ, lastW, bad, badAt>>
+         /\ win' = win \cup {i \in DOMAIN reqs : ~reqs[i].returned /\ sentAt[i] = 0}
+         /\ UNCHANGED <<reqs, chunks, notes, dnotes, expect, firstAt, sentAt, csAt, img, rdQ, lastW, bad, badAt>>
 
 \* a chunk message served by the device
 EUp == /\ Ev.e = "up"
@@ -101,6 +134,8 @@ EUp == /\ Ev.e = "up"
                      ELSE IF Ev.hint # 0 THEN Ev.hint
                      ELSE IF rdQ[Ev.m] # <<>> THEN Head(rdQ[Ev.m]) ELSE 0
               c   == [addr |-> Ev.addr, len |-> Ev.len]
+              there == Ev.st = 0 /\ InSeg(Ev.m, Ev.addr, Ev.len)
+              pos == Pos(Ev.m, Ev.addr, Ev.len)
           IN
           IF rid = 0
           THEN \* a write to an address no request covers is a violation; a read chunk served after
@@ -111,14 +146,14 @@ EUp == /\ Ev.e = "up"
           ELSE /\ chunks' = [chunks EXCEPT ![rid] = MergeAppend(@, c)]
                /\ firstAt' = [firstAt EXCEPT ![rid] = IF @ = 0 THEN l ELSE @]
                /\ IF Ev.k = "r"
-                  THEN /\ expect' = IF Ev.st = 0 /\ Ev.addr + Ev.len <= Len(img[Ev.m])
-                                    THEN [expect EXCEPT ![rid] = @ \o Sub(img[Ev.m], Ev.addr, Ev.len)]
+                  THEN /\ expect' = IF there
+                                    THEN [expect EXCEPT ![rid] = @ \o Sub(img[Ev.m], pos, Ev.len)]
                                     ELSE expect
                        /\ UNCHANGED <<img, lastW>>
                        /\ UNCHANGED rdQ
                        /\ Fail(IF Ev.len > RC THEN "ChunkLimit" ELSE "ok")
-                  ELSE /\ img' = IF Ev.st = 0 /\ Ev.addr + Ev.len <= Len(img[Ev.m])
-                                 THEN [img EXCEPT ![Ev.m] = Overlay(@, Ev.addr, Ev.data)] ELSE img
+                  ELSE /\ img' = IF there
+                                 THEN [img EXCEPT ![Ev.m] = Overlay(@, pos, Ev.data)] ELSE img
                        /\ lastW' = [lastW EXCEPT ![Ev.m] = IF rid > @ THEN rid ELSE @]
                        /\ UNCHANGED <<expect, rdQ>>
                        /\ Fail(IF Ev.len > WC THEN "ChunkLimit"
@@ -127,7 +162,7 @@ EUp == /\ Ev.e = "up"
                                \* may call at the same time; then the queue order is the library's choice)
                                ELSE IF rid < lastW[Ev.m] /\ reqs[rid].retAt # 0 /\ reqs[rid].retAt < csAt[lastW[Ev.m]]
                                     THEN "WriteOrder" ELSE "ok")
-       /\ UNCHANGED <<reqs, notes, csAt, lerrAt, win>>
+       /\ UNCHANGED <<reqs, notes, dnotes, sentAt, csAt, lerrAt, win>>
 
 ENote == /\ Ev.e = "note"
          /\ LET isR == Ev.k \in {"read_ok", "read_fail"}
@@ -151,11 +186,23 @@ ENote == /\ Ev.e = "note"
                          ELSE IF ~P!Tiles(chunks[rid], reqs[rid].addr, reqs[rid].len)
                               THEN (IF isR THEN "ReadTiling" ELSE "WriteTiling")
                          ELSE IF isR /\ (Ev.data # expect[rid] \/ Len(Ev.data) # reqs[rid].len) THEN "ReadData"
-                         ELSE IF ~isR /\ Sub(img[Ev.m], reqs[rid].addr, reqs[rid].len) # reqs[rid].data THEN "WriteData"
+                         ELSE IF ~isR /\ ~InSeg(Ev.m, reqs[rid].addr, reqs[rid].len) THEN "WriteData"
+                         ELSE IF ~isR /\ Sub(img[Ev.m], Pos(Ev.m, reqs[rid].addr, reqs[rid].len), reqs[rid].len) # reqs[rid].data
+                              THEN "WriteData"
                          ELSE "ok")
-         /\ UNCHANGED <<reqs, chunks, expect, firstAt, csAt, img, lastW, lerrAt, win>>
+         /\ UNCHANGED <<reqs, chunks, dnotes, expect, firstAt, sentAt, csAt, img, lastW, lerrAt, win>>
 
-Unfinished == {i \in DOMAIN reqs : reqs[i].accepted /\ notes[i] = <<>> /\ ~MaySup(i)}
+\* the deck client's own callback for request rid (DeckMemoryManager hands the notification on)
+EDnote == /\ Ev.e = "dnote"
+          /\ dnotes' = [dnotes EXCEPT ![Ev.rid] = Append(@, Ev.k)]
+          /\ Fail(IF Len(dnotes[Ev.rid]) >= 1 THEN "DeckNotifiedTwice" ELSE "ok")
+          /\ UNCHANGED <<reqs, chunks, notes, expect, firstAt, sentAt, csAt, img, rdQ, lastW, lerrAt, win>>
+
+\* accepted, not superseded, and not notified -- a request made through the deck manager is
+\* complete when the manager has handed the notification on to the client's callback
+RawUnfinished  == {i \in DOMAIN reqs : reqs[i].accepted /\ notes[i] = <<>> /\ ~MaySup(i)}
+DeckUnfinished == {i \in DOMAIN reqs : reqs[i].accepted /\ reqs[i].via = "deck" /\ notes[i] # <<>> /\ dnotes[i] = <<>>}
+Unfinished == RawUnfinished
 
 \* requests whose call was in progress at, or started between, the link error and the end of the
 \* disconnect notification:
@@ -170,38 +217,43 @@ EDrop == /\ Ev.e = "drop"
          /\ Fail(IF Unfinished \cap win # {} THEN "UnfinishedIssuedDuringDisconnect" ELSE "ok")
          /\ rdQ' = [m \in DOMAIN rdQ |-> <<>>]
          /\ lerrAt' = 0
-         /\ UNCHANGED <<reqs, chunks, notes, expect, firstAt, csAt, img, lastW, win>>
+         /\ UNCHANGED <<reqs, chunks, notes, dnotes, expect, firstAt, sentAt, csAt, img, lastW, win>>
 
 \* bytes no accepted write request covers must still hold their initial value
-Covered(m, a) == \E i \in DOMAIN reqs : /\ reqs[i].kind = "write" /\ reqs[i].m = m
-                                        /\ reqs[i].addr < a /\ a <= reqs[i].addr + reqs[i].len
+Covered(m, p) == LET a == AddrOf(m, p) IN
+                 \E i \in DOMAIN reqs : /\ reqs[i].kind = "write" /\ reqs[i].m = m
+                                        /\ reqs[i].addr <= a /\ a < reqs[i].addr + reqs[i].len
 EEnd == /\ Ev.e = "end"
         /\ Fail(IF Ev.dead THEN "ThreadDied"
                 ELSE IF Ev.hung THEN "Deadlock"
                 ELSE IF Ev.lock THEN "Wedged"
                 ELSE IF Unfinished \ win # {} THEN "Incomplete"
                 ELSE IF Unfinished # {} THEN "UnfinishedIssuedDuringDisconnect"
+                ELSE IF DeckUnfinished # {} THEN "DeckNotNotified"
+                \* ("done": a command call that returns no result)
+                ELSE IF \E i \in DOMAIN reqs : Len(dnotes[i]) = 1 /\ Len(notes[i]) = 1 /\ dnotes[i] # <<"done">> /\ dnotes[i] # notes[i]
+                     THEN "DeckNoteMismatch"
                 ELSE IF Ev.pending THEN "Wedged"
                 ELSE IF ~Ev.epilogue THEN "NotServedAfterwards"
-                ELSE IF \E m \in DOMAIN img : \E a \in DOMAIN img[m] :
-                          ~Covered(m, a) /\ Ev.images[m][a] # T.img0[m][a] THEN "WroteOutside"
+                ELSE IF \E m \in DOMAIN img : \E p \in DOMAIN img[m] :
+                          ~Covered(m, p) /\ Ev.images[m][p] # T.img0[m][p] THEN "WroteOutside"
                 ELSE IF Ev.images # img THEN "DeviceModelDiverged"
                 ELSE IF \E i \in DOMAIN reqs : ~P!ChunkLimit(chunks[i], reqs[i].kind, RC, WC) THEN "ChunkLimit"
                 ELSE IF ~T.hasdup /\ \E i \in DOMAIN reqs : ~P!TilesPrefix(chunks[i], reqs[i].addr, reqs[i].len)
                      THEN "TilingPrefix"
-                ELSE IF \E i \in DOMAIN reqs : ~reqs[i].accepted /\ (notes[i] # <<>> \/ chunks[i] # <<>>)
+                ELSE IF \E i \in DOMAIN reqs : ~reqs[i].accepted /\ (notes[i] # <<>> \/ chunks[i] # <<>> \/ dnotes[i] # <<>>)
                      THEN "RefusedButServed"
                 ELSE "ok")
-        /\ UNCHANGED <<reqs, chunks, notes, expect, firstAt, csAt, img, rdQ, lastW, lerrAt, win>>
+        /\ UNCHANGED <<reqs, chunks, notes, dnotes, expect, firstAt, sentAt, csAt, img, rdQ, lastW, lerrAt, win>>
 
 Step == /\ l <= Len(T.ev)
         /\ l' = l + 1 /\ UNCHANGED tid
-        /\ (ECs \/ ERet \/ ETx \/ ELerr \/ EUp \/ ENote \/ EDrop \/ EEnd)
+        /\ (ECs \/ ERet \/ ETx \/ ELerr \/ EUp \/ ENote \/ EDnote \/ EDrop \/ EEnd)
 
 Finish == /\ l = Len(T.ev) + 1
           /\ l' = l + 1
           /\ PrintT(<<"VERDICT", T.id, bad, badAt, TRUE, 0>>)
-          /\ UNCHANGED <<tid, reqs, chunks, notes, expect, firstAt, csAt, img, rdQ, lastW, lerrAt, win, bad, badAt>>
+          /\ UNCHANGED <<tid, reqs, chunks, notes, dnotes, expect, firstAt, sentAt, csAt, img, rdQ, lastW, lerrAt, win, bad, badAt>>
 
 Next == Step \/ Finish
 Spec == Init /\ [][Next]_vars
